@@ -166,7 +166,40 @@ def decode_expr(e, fb_is_rbp):
         if m:
             v = int(m.group(1), 16 if "constu" in ops[0] and ops[0].split()[1].startswith("0x") else 10)
             return ("const", v, 0)
+    prog = expr_program(ops)
+    if prog is not None:
+        return ("expr", 0, 0, prog)
     return ("opaque", 0, 0)
+
+
+_BIN = {"DW_OP_or", "DW_OP_and", "DW_OP_xor", "DW_OP_plus", "DW_OP_minus", "DW_OP_mul", "DW_OP_shl", "DW_OP_shr", "DW_OP_shra"}
+_UN = {"DW_OP_neg", "DW_OP_not", "DW_OP_dup"}
+
+
+def expr_program(ops):
+    """a value expression (.. , DW_OP_stack_value) made of register reads, constants and arithmetic ->
+    [[op, arg], ..] for the driver's own little stack machine; None if anything else occurs"""
+    if len(ops) < 2 or ops[-1] != "DW_OP_stack_value":
+        return None
+    prog = []
+    for o in ops[:-1]:
+        m = re.fullmatch(r"DW_OP_breg(\d+) \w+([+-]\d+)", o)
+        if m:
+            prog.append(["breg", int(m.group(1)), int(m.group(2))])
+            continue
+        m = re.fullmatch(r"DW_OP_lit(\d+)", o) or re.fullmatch(r"DW_OP_consts ([+-]?\d+)", o)
+        if m:
+            prog.append(["const", int(m.group(1)), 0])
+            continue
+        m = re.fullmatch(r"DW_OP_constu (0x[0-9a-f]+|\d+)", o) or re.fullmatch(r"DW_OP_plus_uconst (0x[0-9a-f]+|\d+)", o)
+        if m:
+            prog.append(["const" if "constu" in o else "plus_uconst", int(m.group(1), 0), 0])
+            continue
+        if o in _BIN or o in _UN:
+            prog.append([o[6:], 0, 0])
+            continue
+        return None
+    return prog
 
 
 def var_locs(d, fb_is_rbp):
@@ -183,11 +216,10 @@ def var_locs(d, fb_is_rbp):
     if "\n" in loc or re.match(r"^0x[0-9a-f]+:", loc.strip()):
         res = []
         for x, y, e in _RANGE.findall(loc):
-            f, p, q = decode_expr(e.strip(), fb_is_rbp) if e else ("opaque", 0, 0)
-            res.append((int(x, 16), int(y, 16), f, p, q))
+            d = decode_expr(e.strip(), fb_is_rbp) if e else ("opaque", 0, 0)
+            res.append((int(x, 16), int(y, 16)) + tuple(d))
         return res
-    f, p, q = decode_expr(loc.strip(), fb_is_rbp)
-    return [(0, BIG, f, p, q)]
+    return [(0, BIG) + tuple(decode_expr(loc.strip(), fb_is_rbp))]
 
 
 def cu_offsets(exe, srcname):
@@ -304,8 +336,8 @@ def tla_module(dw, opt, names, module="ScopeData"):
         bl.append(f'[parent |-> {b["parent"]}, fn |-> {b["fn"]}, ranges |-> <<{rs}>>, kind |-> {tla_str(b["kind"])}]')
     vs = []
     for v in dw["vars"]:
-        ls = ", ".join(f'[lo |-> {lo}, hi |-> {hi}, form |-> {tla_str(f)}, a |-> {a}, b |-> {b}]'
-                       for lo, hi, f, a, b in v["locs"])
+        ls = ", ".join(f'[lo |-> {l[0]}, hi |-> {l[1]}, form |-> {tla_str(l[2])}, a |-> {l[3]}, b |-> {l[4]}]'
+                       for l in v["locs"])
         vs.append(f'[name |-> {tla_str(v["name"])}, block |-> {v["block"]}, decl |-> {v["decl"]}, kind |-> {tla_str(v["kind"])}, '
                   f'scalar |-> {"TRUE" if v["size"] else "FALSE"}, locs |-> <<{ls}>>]')
     gl = ", ".join(tla_str(n) for n in sorted(set(names) & dw["globals"]))
@@ -320,7 +352,8 @@ def driver_table(dw):
     """what the driver needs to read raw facts: per variable its function's ranges and location entries"""
     fnr = {b["id"]: b["ranges"] for b in dw["blocks"] if b["kind"] == "fn"}
     return [{"id": v["id"], "fn": [list(r) for r in fnr[v["fn"]]], "size": v["size"], "signed": v["signed"],
-             "locs": [{"e": n + 1, "form": f, "a": a, "b": b} for n, (lo, hi, f, a, b) in enumerate(v["locs"])]}
+             "locs": [{"e": n + 1, "form": l[2], "a": l[3], "b": l[4], "ops": list(l[5]) if len(l) > 5 else []}
+                      for n, l in enumerate(v["locs"])]}
             for v in dw["vars"] if v["size"]]
 
 
